@@ -327,7 +327,10 @@ func c02(c *Ctx) {
 	c.Rule("R4", "E2/E3 operator table", "accumulation operators: sum n += v; last value = v; histogram counts[idx]++ with count++ and total += v; the map entry is written back under the key it was read with", 5)
 	{
 		// valueMap.measure and lastValue.measure
-		for _, sp := range []struct{ fn, elemT, fld string; add bool }{
+		for _, sp := range []struct {
+			fn, elemT, fld string
+			add            bool
+		}{
 			{"(*valueMap).measure", "sumValue", "n", true}, {"(*lastValue).measure", "datapoint", "value", false},
 		} {
 			fn := c.Fn(ax, "R4", sp.fn)
